@@ -5,7 +5,7 @@ func c05Sys(thorough bool) *mgrSys {
 	if thorough {
 		ups = append(ups, [2]string{"u4", "e1"}, [2]string{"u5", "e2"})
 	}
-	return &mgrSys{Prop: "C05", Upstreams: ups, Endpoints: []string{"e1", "e2"}}
+	return &mgrSys{Prop: "C05", Upstreams: ups, Endpoints: []string{"e1", "e2"}, Echo: true}
 }
 
 func c15Sys(thorough bool) *mgrSys {
